@@ -304,7 +304,8 @@ class Charge:
                 )
                 new_frame = pd.concat([df, new_charges], ignore_index=True)
             else:
-                new_frame = new_charges
+                # The caller keeps its own DataFrame: later changes on either side must not reach the other
+                new_frame = new_charges.copy()
         else:
             new_frame = pd.concat([self._frame, new_charges], ignore_index=True)
 
